@@ -97,6 +97,7 @@ func judge(c *Case) (sig, detail string) {
 	var uerrKind, uerrMsg string
 	failed := false
 	uout := ""
+	prefixVals := []string{w.ins("cur")} // value after 0, 1, ... successful steps
 	for _, s := range c.Steps {
 		o := w.run("cur := cur" + s)
 		uout += o.Stdout
@@ -107,8 +108,31 @@ func judge(c *Case) (sig, detail string) {
 		if o.Kind != interp.Value {
 			return "", "" // host panic / fuel in the plain call: judged by C01
 		}
+		prefixVals = append(prefixVals, w.ins("cur"))
 	}
 	uval := w.ins("cur")
+	// staged: every intermediate Either is kept in a variable, steps are applied to it (twice), and it must go on
+	// reporting the outcome of its own prefix of steps
+	if o := w.run("e0 := " + c.Recv + ".try"); o.Kind == interp.Value {
+		for i, s := range c.Steps {
+			w.run(fmt.Sprintf("e%d := e%d%s", i+1, i, s))
+		}
+		for i, s := range c.Steps {
+			w.run(fmt.Sprintf("again := e%d%s", i, s))
+		}
+		for i := 0; i <= len(c.Steps); i++ {
+			got := w.ins(fmt.Sprintf("e%d.A", i))
+			var want string
+			if i < len(prefixVals) {
+				want = "[" + prefixVals[i] + ", nil]"
+				if got != want {
+					return fail(fmt.Sprintf("intermediate Either e%d (after %d steps) once later steps were applied to it", i, i), got, want)
+				}
+			} else if !strings.HasPrefix(got, "[nil, ") || !strings.Contains(got, uerrMsg) {
+				return fail(fmt.Sprintf("intermediate Either e%d (after the failing step)", i), got, fmt.Sprintf("[nil, %s: %s]", uerrKind, uerrMsg))
+			}
+		}
+	}
 	o := w.run("w := " + c.Recv + ".try" + strings.Join(c.Steps, ""))
 	if o.Kind != interp.Value {
 		return fail("wrapped chain does not evaluate to an Either", o.Show(), "an Either value")
